@@ -142,6 +142,13 @@ func refInteropUnit(libIsClient bool, suite uint16) harness.Unit {
 								c.Violate("reference-peer:client-certificate-lost", fmt.Sprintf("[%s] %s", tag, o.Describe()), nil, tag)
 							}
 						}
+						// exported keying material and channel binding against the reference's own derivation
+						if want := peer.EKM("EXPORTER-verif", []byte("ctx"), 32); !bytes.Equal(o.Lib.EKM, want) || o.Lib.EKMErr != nil {
+							c.Violate("reference-peer:exported-keying-material", fmt.Sprintf("[%s] ExportKeyingMaterial gives %x (%v), RFC 5705 over the session's master secret gives %x", tag, o.Lib.EKM, o.Lib.EKMErr, want), nil, tag)
+						}
+						if !bytes.Equal(o.Lib.TLSUnique, peer.ClientVerify) {
+							c.Violate("reference-peer:tls-unique", fmt.Sprintf("[%s] ConnectionState.TLSUnique is %x, the first Finished of this full handshake carried %x", tag, o.Lib.TLSUnique, peer.ClientVerify), nil, tag)
+						}
 						libWant, refWant := payloadS, payloadC
 						if !libIsClient {
 							libWant, refWant = payloadC, payloadS
